@@ -21,6 +21,17 @@ Conventions of the "standards-conforming terminal" (DESIGN.md §6):
 * strict tokenizer: every byte sequence outside the forms listed in DESIGN.md Appendix C appends one
   complaint `"<class> <detail>"` to `malformed` and is skipped the way xterm's parser would skip it.
 
+Interface notes: `Term.w/h/get` read the displayed grid (`Grid` = row-major `Array` with a size proof, use
+`Grid.get/set/fill/build`); `other` is the hidden screen (1049/47 swap them); `penKnown/linkKnown/cursorKnown` model
+"unknown after `corrupt`" (glyphs written with an unknown pen are garbage, cursor-relative functions with an unknown
+cursor make every cell garbage; SGR 0 / OSC 8 / CUP re-establish them); `last` remembers the cell of the glyph
+printed last (target of combining marks); `Term.finish` turns an incomplete trailing sequence into a complaint
+(`endsInGround` only reports it).  Edge cases decided the xterm way where emulators differ (tmux 3.3a differs in
+each): LF cancels a pending wrap; DECSC/DECRC save and restore the pending-wrap flag and are per screen; `?1049l`
+restores the saved cursor even when the alternate screen is not active; ICH/DCH/ED/EL with a wrap pending act on
+the last column; BS at column 0 stays; DECRST 7 cancels a pending wrap.  Stamps: every cell an operation writes,
+blanks, or moves (scroll, ICH, DCH) gets the current block id.
+
 `malformed` complaint classes (first word): `c0` `del` `c1` `utf8` `esc` `esc-cut` `charset` `csi-cut` `csi-ctl`
 `csi-byte` `csi-param` `csi-final` `sgr` `mode` `winop` `osc-cut` `osc-ctl` `osc-code` `osc-arg` `string`
 `unterminated` (only from `Term.finish`).
@@ -165,6 +176,9 @@ def build (w h : Nat) (f : Nat → Nat → GCell) : Grid :=
 def fill (w h : Nat) (c : GCell) : Grid :=
   { w := w, h := h, cells := ⟨List.replicate (w * h) c⟩, hsize := by simp }
 
+/-- placeholder while a grid is being updated in place (see `Term.putNarrowAt`) -/
+def empty : Grid := { w := 0, h := 0, cells := #[], hsize := rfl }
+
 /-- cell `c` turned into a blank that keeps its pen (the surviving half of a destroyed wide glyph) -/
 def halfBlank (c : GCell) (stamp : Nat) : GCell := { c with runes := [], cont := false, stamp := stamp }
 
@@ -261,6 +275,9 @@ structure Term where
   /-- DECSC slot of the displayed screen / of the other screen -/
   saved : Option Saved := none
   savedOther : Option Saved := none
+  /-- the cell of the last printed base glyph with the cursor state right after printing it
+      (cell x, cell y, cx, cy, pendingWrap): a combining mark joins that cell as long as the cursor state is still the same -/
+  last : Option (Nat × Nat × Nat × Nat × Bool) := none
   /-- strict-tokenizer complaints, in order -/
   malformed : List String := []
   /-- current write-block id -/
@@ -281,13 +298,13 @@ def beginBlock (t : Term) : Term := { t with blocks := t.blocks + 1 }
 /-- external corruption: every cell garbage, pen / link / cursor unknown, modes untouched -/
 def corrupt (t : Term) : Term :=
   { t with grid := Grid.fill t.grid.w t.grid.h Grid.garbageCell, other := Grid.fill t.grid.w t.grid.h Grid.garbageCell,
-           penKnown := false, linkKnown := false, cursorKnown := false, pendingWrap := false }
+           penKnown := false, linkKnown := false, cursorKnown := false, pendingWrap := false, last := none }
 
 /-- the terminal window changed size -/
 def resize (t : Term) (w h : Nat) : Term :=
   { t with cfg := { t.cfg with w := w, h := h },
            grid := Grid.fill w h Grid.garbageCell, other := Grid.fill w h Grid.garbageCell,
-           cx := min t.cx (w - 1), cy := min t.cy (h - 1), pendingWrap := false }
+           cx := min t.cx (w - 1), cy := min t.cy (h - 1), pendingWrap := false, last := none }
 
 def endsInGround (t : Term) : Bool := t.st == .ground
 
@@ -399,10 +416,16 @@ def doWrap (t : Term) : Term :=
     (if t.modes.autoMargin then { t.lineFeed with cx := 0 } else { t with pendingWrap := false })
   else t
 
+/- Performance note for the compiled driver: the grid is taken out of the terminal (`{ t with grid := Grid.empty }`)
+   before it is updated, so that the cell array is uniquely referenced and `Array.setIfInBounds` works in place;
+   logically this is just `{ t with grid := (t.grid.clobber …).set … }`. -/
 def putNarrowAt (t : Term) (cp : Int) : Term :=
-  let g := (t.grid.clobber t.blocks t.cx t.cy).set t.cx t.cy (t.glyphCell cp)
-  if t.cx + 1 < t.w then { t with grid := g, cx := t.cx + 1 }
-  else { t with grid := g, pendingWrap := t.modes.autoMargin }
+  let cell := t.glyphCell cp
+  let g := t.grid
+  let t := { t with grid := Grid.empty }
+  let g := (g.clobber t.blocks t.cx t.cy).set t.cx t.cy cell
+  if t.cx + 1 < g.w then { t with grid := g, cx := t.cx + 1, last := some (t.cx, t.cy, t.cx + 1, t.cy, t.pendingWrap) }
+  else { t with grid := g, pendingWrap := t.modes.autoMargin, last := some (t.cx, t.cy, t.cx, t.cy, t.modes.autoMargin) }
 
 def putNarrow (t : Term) (cp : Int) : Term :=
   if !t.cursorKnown then t.garbageAll
@@ -412,10 +435,14 @@ def putNarrow (t : Term) (cp : Int) : Term :=
     t.putNarrowAt cp
 
 def putWideAt (t : Term) (cp : Int) : Term :=
-  let g := (t.grid.clobber t.blocks t.cx t.cy).set t.cx t.cy (t.glyphCell cp)
-  let g := (g.clobber t.blocks (t.cx + 1) t.cy).set (t.cx + 1) t.cy { t.glyphCell cp with runes := [], cont := true }
-  if t.cx + 2 < t.w then { t with grid := g, cx := t.cx + 2 }
-  else { t with grid := g, cx := t.cx + 1, pendingWrap := t.modes.autoMargin }
+  let cell := t.glyphCell cp
+  let g := t.grid
+  let t := { t with grid := Grid.empty }
+  let g := (g.clobber t.blocks t.cx t.cy).set t.cx t.cy cell
+  let g := (g.clobber t.blocks (t.cx + 1) t.cy).set (t.cx + 1) t.cy { cell with runes := [], cont := true }
+  if t.cx + 2 < g.w then { t with grid := g, cx := t.cx + 2, last := some (t.cx, t.cy, t.cx + 2, t.cy, t.pendingWrap) }
+  else { t with grid := g, cx := t.cx + 1, pendingWrap := t.modes.autoMargin,
+                last := some (t.cx, t.cy, t.cx + 1, t.cy, t.modes.autoMargin) }
 
 def putWide (t : Term) (cp : Int) : Term :=
   if !t.cursorKnown then t.garbageAll
@@ -428,16 +455,29 @@ def putWide (t : Term) (cp : Int) : Term :=
       let t := if t.modes.insertMode then t.insertChars 2 else t
       t.putWideAt cp
 
-/-- a combining mark joins the glyph in the previous cell (the cell under the cursor when a wrap is pending) -/
+def addMark (t : Term) (x y : Nat) (cp : Int) : Term :=
+  let g := t.grid
+  let t := { t with grid := Grid.empty }
+  let c := g.get x y
+  { t with grid := g.set x y { c with runes := (if c.runes.isEmpty then [32] else c.runes) ++ [cp], stamp := t.blocks } }
+
+/-- positional rule: the glyph in the previous cell (the cell under the cursor when a wrap is pending) -/
+def putCombiningPos (t : Term) (cp : Int) : Term :=
+  let x := if t.pendingWrap then t.cx + 1 else t.cx
+  if x = 0 then t
+  else
+    let x := if (t.grid.get (x - 1) t.cy).cont then x - 2 else x - 1
+    t.addMark x t.cy cp
+
+/-- a combining mark joins the glyph printed last if the cursor has not moved since; otherwise the positional
+    rule applies; at column 0 it is dropped -/
 def putCombining (t : Term) (cp : Int) : Term :=
   if !t.cursorKnown then t.garbageAll
   else
-    let x := if t.pendingWrap then t.cx + 1 else t.cx
-    if x = 0 then t
-    else
-      let x := if (t.grid.get (x - 1) t.cy).cont then x - 2 else x - 1
-      let c := t.grid.get x t.cy
-      { t with grid := t.grid.set x t.cy { c with runes := (if c.runes.isEmpty then [32] else c.runes) ++ [cp], stamp := t.blocks } }
+    match t.last with
+    | some (x, y, cx', cy', pw') =>
+      if cx' = t.cx ∧ cy' = t.cy ∧ pw' = t.pendingWrap then t.addMark x y cp else t.putCombiningPos cp
+    | none => t.putCombiningPos cp
 
 /-- print the glyph `cp` occupying `wd` ∈ {0,1,2} columns -/
 def putGlyph (t : Term) (cp : Int) (wd : Nat) : Term :=
@@ -584,7 +624,42 @@ def colonColor (subs : Param) : Option ColorSel :=
   | [some 2, _, some r, some g, some b] => some (.rgb r g b)
   | _ => none
 
-/-- SGR over the parameter list; `fuel` ≥ number of parameters -/
+/-- one SGR parameter `p` (with access to the following parameters `rest` for the `;` forms of 38/48/58);
+    `k` continues with the parameters that are left -/
+def sgrStep (k : List Param → Term → Term) (p : Param) (rest : List Param) (t : Term) : Term :=
+  match p with
+  | [] | [none] => k rest { t with pen := { link := t.pen.link }, penKnown := true }
+  | [some n] =>
+    if n = 38 ∨ n = 48 ∨ n = 58 then
+      match rest with
+      | [some 5] :: [some i] :: rest' =>
+        if i ≤ 255 then k rest' { t with pen := setExt t.pen n (.idx i) }
+        else k rest' (t.complain "sgr colour index out of range")
+      | [some 2] :: [some r] :: [some g] :: [some b] :: rest' =>
+        if colorOk (.rgb r g b) then k rest' { t with pen := setExt t.pen n (.rgb r g b) }
+        else k rest' (t.complain "sgr rgb component out of range")
+      | _ => t.complain "sgr malformed extended colour"
+    else if n = 0 then k rest { t with pen := { link := t.pen.link }, penKnown := true }
+    else if n = 10 ∨ n = 11 ∨ n = 12 then k rest { t with modes := { t.modes with altFont := n - 10 } }
+    else match sgrSimple t.pen n with
+      | some p' => k rest { t with pen := p' }
+      | none => k rest (t.complain "sgr unknown parameter")
+  | some n :: subs =>
+    if n = 4 then
+      match subs with
+      | [some s] => if s ≤ 5 then k rest { t with pen := { t.pen with ul := s } }
+                    else k rest (t.complain "sgr underline style out of range")
+      | _ => k rest (t.complain "sgr malformed 4:")
+    else if n = 38 ∨ n = 48 ∨ n = 58 then
+      match colonColor subs with
+      | some c => if colorOk c then k rest { t with pen := setExt t.pen n c }
+                  else k rest (t.complain "sgr colour out of range")
+      | none => k rest (t.complain "sgr malformed extended colour")
+    else k rest (t.complain "sgr unexpected sub-parameters")
+  | none :: _ => k rest (t.complain "sgr unexpected sub-parameters")
+
+/-- SGR over the parameter list; `fuel` ≥ number of parameters.  (Written out rather than through `sgrStep`:
+    this form evaluates fast in the kernel; `applySgr_step` in `Ecma48Lemmas` shows it is `sgrStep (applySgr fuel)`.) -/
 def applySgr : Nat → List Param → Term → Term
   | 0, _, t => t
   | _, [], t => t
